@@ -4,7 +4,6 @@ import (
 	"bytes"
 	"fmt"
 	"math/big"
-	"strings"
 
 	"github.com/emmansun/gmsm/padding"
 	"github.com/emmansun/gmsm/sm4"
@@ -65,7 +64,7 @@ func reuse(x *mon.Ctx) {
 			bufEncCase(c, j, hid)
 			c.End()
 		}
-		if c := x.Begin("bufkex #%d hid=%#x: 12 sequential key exchanges (all ordered pairs of 4 identities) on long-lived user keys, each party's uids and received messages held in one reused arena", j, hid); c != nil {
+		if c := x.Begin("bufkex #%d hid=%#x: 12 sequential key exchanges (all ordered pairs of 4 identities) on long-lived user keys; uid buffers overwritten while the session is live, every received message read into the party's one receive buffer, every returned slice overwritten before the next step", j, hid); c != nil {
 			bufKexCase(c, j, hid)
 			c.End()
 		}
@@ -1014,22 +1013,26 @@ func bufEncCase(c *mon.Case, idx int, hid byte) {
 
 // ---- key exchange
 
-// arena layout of one party of the key exchange
+// arena layout of one party of the key exchange: its two uid buffers and ONE receive
+// buffer into which every protocol message it gets is read (the responder reads RA and
+// later SA over it; the initiator reads the response RB||SB).
 const (
 	kxSelf = 0   // own uid
 	kxPeer = 192 // peer uid
-	kxNet  = 384 // RA (responder) or RB (initiator) as received
-	kxConf = 512 // SB (initiator) or SA (responder) as received
+	kxNet  = 384 // the receive buffer
 	kxSize = 1024
 )
 
-var kexProbes = []string{
-	"RA returned by InitKeyExchange overwritten before ConfirmResponder",
-	"RA receive buffer reused for SA before ConfirmInitiator",
-	"uid buffers given to NewKeyExchange overwritten while the exchange is running",
-	"RB returned by RespondKeyExchange overwritten before ConfirmInitiator",
-}
-
+// bufKexCase: the exchange object outlives every call that feeds it, so the arena
+// discipline is applied at every step of every session. The uid buffers given to
+// NewKeyExchange are overwritten as soon as the constructor returned and again after
+// every step; each party reads every message it receives into its ONE receive buffer,
+// which is overwritten again as soon as the step returned (the responder's RA is gone
+// - overwritten by SA - when ConfirmInitiator runs); every slice a step returned (RA,
+// RB, SB, SA, the keys) is overwritten before the next step of either party. The
+// messages travel between the parties as private copies (the network). Every session
+// must complete - both confirmations accepted - with the reference key, SB and SA for
+// ITS identities and messages.
 func bufKexCase(c *mon.Case, idx int, hid byte) {
 	ids := identPool(c.R, idx, hid)[:4]
 	confirm := idx%3 != 2
@@ -1047,6 +1050,12 @@ func bufKexCase(c *mon.Case, idx int, hid byte) {
 	if euks == nil {
 		return
 	}
+	// trash overwrites everything the two parties keep in their arenas: the uid buffers the
+	// exchange objects were constructed from and the receive buffers of the steps that returned
+	trash := func() {
+		c.R.Fill(memI.mem)
+		c.R.Fill(memR.mem)
+	}
 	side := func(m *arena, self, peer int, label string) *kexSide {
 		s := &kexSide{uid: ids[self].uid, peer: ids[peer].uid, uk: euks[self], ukPeer: euks[peer]}
 		s.stream = c.R.Bytes(32 * 24)
@@ -1058,33 +1067,13 @@ func bufKexCase(c *mon.Case, idx int, hid byte) {
 		return s
 	}
 	var err error
-	// session runs one honest exchange a -> b with every argument in the two arenas. probe
-	// (>= 0) additionally disturbs memory the UNCHANGED library is known to keep referring to;
-	// the outcome of such a session is only counted.
-	session := func(tag string, a, b int, probe int) {
+	session := func(tag, what string, a, b int) {
 		A, B := side(memI, a, b, tag+"/A"), side(memR, b, a, tag+"/B")
-		judged := probe < 0
-		good, done := true, false
-		bad := func(kind, format string, args ...any) {
-			good = false
-			if judged {
-				c.Fail(kind, format, args...)
-			}
+		trash() // the uid buffers are the callers' again
+		if destroy {
+			defer c.Call("Destroy", func() { A.ke.Destroy(); B.ke.Destroy() })
 		}
-		defer func() {
-			if destroy {
-				c.Call("Destroy", func() { A.ke.Destroy(); B.ke.Destroy() })
-			}
-			switch {
-			case judged:
-			case good && done:
-				c.Event("observed_kex_probe/"+kexProbes[probe]+"/exchange still completes with the reference key", 1)
-			default:
-				// library behaviour on the unchanged tree (the exchange object keeps the caller's
-				// slices and hands out its own), outside what the property states; reported, not judged
-				c.Event("observed_kex_probe/"+kexProbes[probe]+"/exchange fails or derives another key", 1)
-			}
-		}()
+		hist := tag + " " + what + ", uid buffers, receive buffers and returned slices overwritten after every step"
 		var ra, rb, sb, sa, ska, skb []byte
 		memI.mark()
 		if !c.Call(tag+": InitKeyExchange", func() { ra, err = A.ke.InitKeyExchange(A.rnd, hid) }) {
@@ -1092,17 +1081,12 @@ func bufKexCase(c *mon.Case, idx int, hid byte) {
 		}
 		memI.intact("InitKeyExchange")
 		if err != nil {
-			bad("reject", "%s: InitKeyExchange: %v", tag, err)
+			c.Fail("reject", "%s: InitKeyExchange: %v", hist, err)
 			return
 		}
-		raC := clone(ra)
-		if probe == 0 {
-			scribble(ra)
-		}
-		if probe == 2 {
-			c.R.Fill(memI.mem[:kxNet])
-			c.R.Fill(memR.mem[:kxNet])
-		}
+		raC := clone(ra) // on the wire
+		scribble(ra)
+		trash()
 		in := memR.put(kxNet, raC)
 		memR.mark()
 		if !c.Call(tag+": RespondKeyExchange", func() { rb, sb, err = B.ke.RespondKeyExchange(B.rnd, hid, in) }) {
@@ -1110,38 +1094,33 @@ func bufKexCase(c *mon.Case, idx int, hid byte) {
 		}
 		memR.intact("RespondKeyExchange")
 		if err != nil {
-			bad("reject", "%s: RespondKeyExchange refuses the honest RA held in the responder's arena: %v", tag, err)
+			c.Fail("reject", "%s: RespondKeyExchange refuses the honest RA read into the responder's receive buffer: %v", hist, err)
 			return
 		}
-		rbC, sbC := clone(rb), clone(sb)
-		scribble(sb)
-		if probe == 3 {
-			scribble(rb)
-		}
+		rbC, sbC := clone(rb), clone(sb) // on the wire
+		scribble(rb, sb)
+		trash()
 		want, haveWant := e.expect(A, B, raC, rbC)
-		if haveWant && confirm && !bytes.Equal(sbC, want.SB) {
-			bad("mismatch", "%s: SB %x differs from the reference %x for this session's identities and messages", tag, sbC, want.SB)
+		if haveWant && confirm {
+			c.Eq(hist+": SB vs reference for this session's identities and messages", sbC, want.SB)
 		}
-		inB, inS := memI.put(kxNet, rbC), memI.put(kxConf, sbC)
+		inB := memI.put(kxNet, rbC)
+		inS := memI.put(kxNet+len(rbC), sbC)
 		memI.mark()
 		if !c.Call(tag+": ConfirmResponder", func() { ska, sa, err = A.ke.ConfirmResponder(inB, inS) }) {
 			return
 		}
 		memI.intact("ConfirmResponder")
 		if err != nil {
-			bad("reject", "%s: ConfirmResponder refuses the honest response held in the initiator's arena: %v", tag, err)
+			c.Fail("reject", "%s: ConfirmResponder refuses the honest response RB||SB read into the initiator's receive buffer: %v", hist, err)
 			return
 		}
 		saC, skaC := clone(sa), clone(ska)
 		scribble(sa, ska)
-		c.R.Fill(memI.mem[kxNet:]) // the initiator is done with RB and SB
-		var inA []byte             // nil: no confirmation was sent
+		trash()
+		var inA []byte // nil: no confirmation was sent
 		if saC != nil {
-			off := kxConf
-			if probe == 1 {
-				off = kxNet // over the RA the responder received earlier
-			}
-			inA = memR.put(off, saC)
+			inA = memR.put(kxNet, saC) // over the RA received earlier
 		}
 		memR.mark()
 		if !c.Call(tag+": ConfirmInitiator", func() { skb, err = B.ke.ConfirmInitiator(inA) }) {
@@ -1149,43 +1128,34 @@ func bufKexCase(c *mon.Case, idx int, hid byte) {
 		}
 		memR.intact("ConfirmInitiator")
 		if err != nil {
-			bad("reject", "%s: ConfirmInitiator refuses the honest confirmation held in the responder's arena: %v", tag, err)
+			c.Fail("reject", "%s: ConfirmInitiator refuses the honest confirmation SA read into the responder's receive buffer (over RA): %v", hist, err)
 			return
 		}
-		done = true
-		if !bytes.Equal(skb, skaC) {
-			bad("mismatch", "%s: the two sides derive different keys: initiator %x responder %x", tag, skaC, skb)
-		}
+		c.Eq(hist+": responder's key vs initiator's key", skb, skaC)
 		if len(skaC) != e.klen {
-			bad("mismatch", "%s: shared key has %d bytes, want %d", tag, len(skaC), e.klen)
+			c.Fail("mismatch", "%s: shared key has %d bytes, want %d", hist, len(skaC), e.klen)
+		}
+		if confirm && (len(sbC) != 32 || len(saC) != 32) || !confirm && (len(sbC) != 0 || len(saC) != 0) {
+			c.Fail("mismatch", "%s: confirmation values: len(SB)=%d len(SA)=%d with confirm=%v", hist, len(sbC), len(saC), confirm)
 		}
 		if haveWant {
-			if !bytes.Equal(skaC, want.SK) {
-				bad("mismatch", "%s: shared key %x differs from the reference %x for this session's identities and messages", tag, skaC, want.SK)
+			c.Eq(hist+": shared key vs reference for this session's identities and messages", skaC, want.SK)
+			if confirm {
+				c.Eq(hist+": SA vs reference", saC, want.SA)
 			}
-			if confirm && !bytes.Equal(saC, want.SA) {
-				bad("mismatch", "%s: SA %x differs from the reference %x", tag, saC, want.SA)
-			}
-			if judged {
-				c.Event("model_kex_checks", 1)
-			}
+			c.Event("model_kex_checks", 1)
 		}
 		scribble(skb)
-		if judged {
-			digest(c, "reuse/kex/"+strings.SplitN(tag, " (", 2)[0], raC, rbC, sbC, saC, skaC)
-			c.Event("key_exchanges", 1)
-			c.Event("reuse_key_exchanges", 1)
-		}
+		trash()
+		digest(c, "reuse/kex/"+tag, raC, rbC, sbC, saC, skaC)
+		c.Event("key_exchanges", 1)
+		c.Event("reuse_key_exchanges", 1)
 	}
 	walk := eulerWalk(len(ids), c.R.Perm(len(ids)))
 	for t := 1; t < len(walk); t++ {
-		session(fmt.Sprintf("session %d %v -> %v", t, ids[walk[t-1]], ids[walk[t]]), walk[t-1], walk[t], -1)
+		session(fmt.Sprintf("session %d", t), fmt.Sprintf("%v -> %v", ids[walk[t-1]], ids[walk[t]]), walk[t-1], walk[t])
 		if c.Failed() {
 			return
 		}
-	}
-	if confirm {
-		p := (idx / 2) % len(kexProbes)
-		session("probe", walk[0], walk[1], p)
 	}
 }
